@@ -50,6 +50,12 @@ def _cmp_multi_index(a, b):
         else:
             # Both are Index, no decision, do not depend on count!
             pass
+    # One multiindex is a prefix of the other (up to free indices):
+    # sort the shorter one first. Returning 0 here would make the
+    # ordering intransitive, e.g. [1,2] ~ [1] ~ [1,1] but [1,2] > [1,1].
+    x, y = len(a._indices), len(b._indices)
+    if x != y:
+        return -1 if x < y else 1
     # Failed to make a decision, return 0 by default
     # (this does not mean equality, it could be e.g.
     # [i,0] vs [j,0] because the counts of i,j cannot be used)
